@@ -93,7 +93,7 @@ PROPERTIES = {
                        "(and offset minus that entry as column), which on a well-formed table is the unique line containing the offset "
                        "(lemma_last_le_is_line, lemma_line_unique); the for-enumerate loop is verified through extraction rule T8 "
                        "(index loop), and Kani re-checks the untouched real functions for table lengths 1..6 (quick) / ..12 (thorough) "
-                       "with fully symbolic entries and offsets. BOUNDED: Kani runs the real line_starts on every ASCII text of 0..4 bytes (quick) / "
+                       "with fully symbolic entries and offsets. BOUNDED: Kani runs the real line_starts on every UTF-8 text of 1- and 2-byte characters that is 0..4 bytes long (quick) / "
                        "..8 bytes (thorough) and checks that the table is 0 followed by the offset after each '\\n' byte, strictly increasing - "
                        "the well-formedness the Verus contract requires, and the right table for LF and CRLF text (the original function "
                        "failed this for \"\\r\\n\": fixed in /repo 64d0327). Not covered: UTF-16 columns (columns are byte offsets), lone \\r "
@@ -101,8 +101,7 @@ PROPERTIES = {
         "assumptions": A_COMMON + [
             "T8 `for (i, &x) in V.iter().enumerate()` -> `for i in 0..V.len() { let x = V[i]; .. }` preserves meaning (cross-checked by the Kani harnesses on the unmodified function for n <= 12)",
             "A7 that the table handed to to_line_range/to_inline_range is the one line_starts built is by inspection of read() (one assignment); "
-            "line_starts itself is checked by Kani for ASCII texts up to 8 bytes only (bounded, not proved); non-ASCII text relies on the "
-            "UTF-8 fact that byte 0x0A occurs only as the character '\\n'",
+            "line_starts itself is checked by Kani for texts up to 8 bytes made of 1- and 2-byte UTF-8 characters only (bounded, not proved)",
             "A9 Kani: table length fixed per harness (1..6 quick, up to 12 thorough); text length fixed per line_starts harness (0..4 quick, up to 8 thorough)",
         ],
     },
